@@ -1812,6 +1812,11 @@ func main() {
 		fmt.Fprintln(os.Stderr, "C12 harness: must be started as root (it sets modes such as 04755/0500 and re-runs a part of itself as uid 65534)")
 		os.Exit(3)
 	}
+	if fi, err := os.Stat(run.Dir); err == nil && fi.Mode()&os.ModeSetgid != 0 {
+		// every directory created below would inherit the bit and all mode comparisons would be off
+		fmt.Fprintln(os.Stderr, "C12 harness: the run directory is setgid; use a run directory without inherited mode bits")
+		os.Exit(3)
+	}
 	run.Rule = "scenario = 1-3 files/directories (random trees: nesting <= 5, empty dirs/files, names up to 220 bytes and non-ASCII, relative symlinks, assorted modes, sizes 0-2 MiB, some items with equal content) x options (TarReproducible, PreservePermissions, SkipUnpack, ForceCAS, IgnoreNoName, umask) x intermediate store (memory, OCI layout); distinct = distinct restored listing / entry list / descriptor; non-trivial = a directory tree with at least one entry, a duplicate-content manifest, a tampered descriptor or a failing extraction; plus the exhaustive small scope: every directory with entries a, b each a file / symlink (9 targets) / directory with nothing, a file or such a symlink"
 	if run.Replay != "" {
 		data, err := os.ReadFile(run.Replay)
@@ -1861,4 +1866,21 @@ func main() {
 		runScenario(sc)
 	}
 	runChild("")
+	// coverage floors: a generated run in which one of the streams produced nothing is an error of
+	// the run (layer R), not a silent pass
+	var missing []string
+	for _, k := range []string{"item=dir", "item=file", "via=memory", "via=oci", "via=remote", "repro-pair=EQ", "repro-pair=NE",
+		"duplicate-content", "hard-link", "item-added-via-symlink", "item-path-differs-from-name", "tree-links=through",
+		"tree-links=outside", "tree-with-setuid/setgid/sticky", "foreign=OK", "foreign=ERR reject", "unpack-good=OK",
+		"unpack-wrong-checksum=ERR", "unpack-wrong-digest=ERR", "direct-push-compared", "skipunpack-blob", "forceCAS-deduped",
+		"filesize>=1MiB", "name>100", "name-nonascii", "nonroot: copy-in=OK", "nonroot: item=dir"} {
+		if run.Dist[k] == 0 {
+			missing = append(missing, k)
+		}
+	}
+	if len(missing) > 0 {
+		fmt.Fprintf(os.Stderr, "C12 harness: coverage floor: no case for %q\n", missing)
+		run.Finish()
+		os.Exit(3)
+	}
 }
